@@ -91,7 +91,7 @@ def run(ctx):
     return {"cases": cases, "bad": bad, "worker_errs": worker_errs, "coq_errs": ([res["error"]] if "error" in res else []) + gcoq,
             "coverage": {"evaluations": len(cases), "distinct_nontrivial": nt,
                          "rule": "sample: a two-parameter parameter-echo sampler under seed(modular_vmap(...)) with 1-3 lanes, per-lane output rank 0-2, size-1 broadcast dims, "
-                                 "batch axes at any position of either parameter or absent, axis_size given or inferred, site sample_shape empty or not, and (15%) per-lane ranks "
+                                 "batch axes at any position of either parameter or absent, axis_size given or inferred, site sample_shape of rank 0-2, and (15%) per-lane ranks "
                                  "that differ; the parameter elements behind every output element are decoded and compared in Coq with the model of the batching rule and with the "
                                  "lane-wise specification.  flag: deterministic functions (affine, reductions, matvec, indexing, scan, cond, pytree outputs) with in_axes in "
                                  "{0,1,-1,None}, density sites, echo sites inside nested modular_vmap / scan / cond, compared with jax.vmap of a reference; real normal sites: lanes distinct. "
